@@ -161,15 +161,15 @@ def main():
                     nrej += 1
     # (b) program streams
     progs, gres = [], []
-    for name, alpha, n, cap in (("control", streams.A_CONTROL, 6, 300 if q else 5000), ("effects", streams.A_EFFECTS, 6, 300 if q else 5000),
-                                ("nest", streams.A_NEST, 8, 200 if q else 3000), ("degen", streams.A_DEGEN, 8, 600 if q else 20000)):
+    for name, alpha, n, cap in (("control", streams.A_CONTROL, 6, 300 if q else 3000), ("effects", streams.A_EFFECTS, 6, 300 if q else 3000),
+                                ("nest", streams.A_NEST, 8, 200 if q else 2000), ("degen", streams.A_DEGEN, 8, 600 if q else 8000)):
         c = dict(alpha)
         c["MaxNodes"] = n
         c["SigsName"] = "none"
         rs, res = gen.run_builder(c, "c04_" + name, workers=8, timeout=1500, cap=cap, rnd=rnd)
         gres.append(res)
         progs += [streams.with_vars(streams.finalize(p), c) for p in rs]
-    rp, rres = streams.c02_programs(tier, seed, rnd, caps=(3000, 100) if q else (20000, 3000))
+    rp, rres = streams.c02_programs(tier, seed, rnd, caps=(3000, 100) if q else (8000, 1500))      # (the thorough tier of this check once needed 7 GB: budgets halved)
     progs += rp
     for r in gres + rres:
         chk.add_tlc(r)
